@@ -3,10 +3,10 @@
 HARNESSES = {
     'cbl': dict(sources=['src/h_cbl.cpp']),
     # fault-enumeration variants: the same harness sources plus the replacement operator new (allocation failures)
-    'cbl_f': dict(sources=['src/h_cbl.cpp', 'src/common/newfault.cpp']),
-    'queue_f': dict(sources=['src/h_queue.cpp', 'src/common/newfault.cpp']),
-    'remover_f': dict(sources=['src/h_remover.cpp', 'src/common/newfault.cpp']),
-    'heter_f': dict(sources=['src/h_heter.cpp', 'src/common/newfault.cpp']),
+    'cbl_f': dict(sources=['src/h_cbl.cpp', 'src/common/newfault.cpp'], flags=['-DVF_FAULTS']),
+    'queue_f': dict(sources=['src/h_queue.cpp', 'src/common/newfault.cpp'], flags=['-DVF_FAULTS']),
+    'remover_f': dict(sources=['src/h_remover.cpp', 'src/common/newfault.cpp'], flags=['-DVF_FAULTS']),
+    'heter_f': dict(sources=['src/h_heter.cpp', 'src/common/newfault.cpp'], flags=['-DVF_FAULTS']),
     'queue': dict(sources=['src/h_queue.cpp']),
     'disp': dict(sources=['src/h_disp.cpp']),
     'cq': dict(sources=['src/h_cq.cpp']),
@@ -113,10 +113,11 @@ prop('C19', 'exploration',
      COMMON_ASSUME + ['the 2^32 additions are replaced by the EVENTPP_VERIF accessor verifSetCounterBeforeMax (forward only)'],
      q, t)
 
-q, t = multi_stages([('cbl', 2000, 100000), ('queue', 2000, 100000)])
+q, t = multi_stages([('cbl', 2000, 100000), ('queue', 2000, 100000), ('cbl_f', 250, 10000), ('queue_f', 100, 10000)])
 prop('C08', 'exploration',
      'ledger oracle over the cbl program classes (every construction/destruction of callbacks and payloads recorded by address; LeakSanitizer confirmation when the heap '
-     'does not return to its pre-case size); non-trivial = a callback was removed while an invocation was running, or a list was destroyed non-empty',
+     'does not return to its pre-case size); the fault-enumeration variants (see C09) re-run the same histories with an exception injected at every fault point of sampled operations; '
+     'non-trivial = a callback was removed while an invocation was running, or a list/queue was destroyed non-empty',
      COMMON_ASSUME, q, t)
 
 q, t = std_stages('queue', 2500, 150000, fuzz_runs=1000000)
